@@ -82,7 +82,7 @@ def props_of(finding, trace, sc):
         return {"C10"}
     if clause.startswith("struct"):
         return {"C10", "C04"} if clause == "struct_between" else {"C10"}
-    if clause == "repaint":
+    if base == "repaint":
         return {"C02"}
     if base == "batch":
         return {"C01"}
